@@ -135,7 +135,23 @@ class Adapter:
 
     def alt_value(self, p):
         v = self.value(p)
-        return v + 1.25
+        return [x + 1.25 for x in v] if isinstance(v, list) else v + 1.25
+
+    # falsy / special values a learner may legally be told (exact zeros of every flavour)
+    specials = (0, 0.0, -0.0)
+
+    def first_value(self, rng, p, prob=0.15):
+        """The value for a first tell of p: now and then an exact zero."""
+        if self.specials and rng.random() < prob:
+            return rng.choice(self.specials)
+        return self.value(p)
+
+    # points for the "hull" opening (LearnerND): well inside / near the border of the domain
+    def interior_point(self, rng, l):
+        return None
+
+    def outer_point(self, rng, l):
+        return None
 
     def rand_point(self, rng, l):
         raise NotImplementedError
@@ -161,6 +177,8 @@ class A_L1D(Adapter):
         from adaptive.learner import learner1D as m
         loss = {"default": None, "uniform": m.uniform_loss, "curvature": m.curvature_loss_function(),
                 "triangle": m.triangle_loss}[self.spec.get("loss", "default")]
+        if self.spec.get("vec"):
+            self.specials = ([0.0, 0.0], [-0.0, 0.0])
         return Learner1D(f_1d, tuple(self.spec.get("bounds", (-1.0, 1.0))), loss_per_interval=loss)
 
     def point(self, p):
@@ -168,7 +186,16 @@ class A_L1D(Adapter):
 
     def value(self, p):
         lo, hi = self.spec.get("bounds", (-1.0, 1.0))
-        return f_1d((float(p) - lo) / (hi - lo))
+        v = f_1d((float(p) - lo) / (hi - lo))
+        return [v, 2.0 * v - 1.0] if self.spec.get("vec") else v
+
+    def stored(self, v):
+        # Learner1D.tell converts everything that is not a float / int with np.asarray(y, dtype=float); the rebuilding
+        # path of tell_many stores the sequence as given -- both count as the same vector
+        return canon(v) if isinstance(v, (float, int)) else canon(np.asarray(v, dtype=float))
+
+    def data_items(self, l):
+        return [(self.key(k), self.stored(v) if isinstance(v, (list, tuple, np.ndarray)) else canon(v)) for k, v in l.data.items()]
 
     def rand_point(self, rng, l):
         lo, hi = l.bounds
@@ -195,6 +222,8 @@ class A_LND(Adapter):
         from adaptive.learner import learnerND as m
         dim = self.spec.get("dim", 2)
         loss = {"default": None, "uniform": m.uniform_loss}[self.spec.get("loss", "default")]
+        if self.spec.get("vec"):
+            self.specials = ([0.0, 0.0], [-0.0, 0.0])
         return LearnerND(f_nd, tuple((-1.0, 1.0) for _ in range(dim)), loss_per_simplex=loss)
 
     def point(self, p):
@@ -204,7 +233,22 @@ class A_LND(Adapter):
         return canon(tuple(float(x) for x in p))
 
     def value(self, p):
-        return f_nd(tuple(p))
+        v = f_nd(tuple(p))
+        return [v, 0.5 - v] if self.spec.get("vec") else v
+
+    def interior_point(self, rng, l):
+        for _ in range(20):
+            p = tuple(rng.uniform(-0.55, 0.55) for _ in range(l.ndim))
+            if p not in l.data and p not in l.pending_points:
+                return p
+        return None
+
+    def outer_point(self, rng, l):
+        for _ in range(20):
+            p = tuple(rng.choice([-1, 1]) * rng.uniform(0.7, 0.95) for _ in range(l.ndim))
+            if p not in l.data and p not in l.pending_points:
+                return p
+        return None
 
     def rand_point(self, rng, l):
         for _ in range(20):
@@ -301,6 +345,7 @@ class A_Avg1D(Adapter):
 class A_Seq(Adapter):
     kind = "Seq"
     keeps_first = False
+    specials = (0, 0.0, -0.0, False, None, "", [])      # the values are arbitrary objects
 
     def seq(self):
         n = self.spec.get("n", 12)
@@ -337,6 +382,7 @@ class A_Int(Adapter):
     pending_superset = True     # points are pending from the moment they are queued
     has_tell_pending = False
     retell_alt = False
+    specials = (0.0,)
 
     def make(self):
         from adaptive import IntegratorLearner
@@ -403,6 +449,21 @@ class A_Bal(Adapter):
         q = self.child.rand_point(rng, l.learners[i])
         return None if q is None else (i, q)
 
+    def first_value(self, rng, p, prob=0.15):
+        if self.child.specials and rng.random() < prob:
+            return rng.choice(self.child.specials)
+        return self.value(p)
+
+    def interior_point(self, rng, l):
+        i = rng.randrange(len(l.learners))
+        q = self.child.interior_point(rng, l.learners[i])
+        return None if q is None else (i, q)
+
+    def outer_point(self, rng, l):
+        i = rng.randrange(len(l.learners))
+        q = self.child.outer_point(rng, l.learners[i])
+        return None if q is None else (i, q)
+
     def data_items(self, l):
         return [(("b", i, k), v) for i, c in enumerate(l.learners) for k, v in self.child.data_items(c)]
 
@@ -449,6 +510,17 @@ class A_DS(Adapter):
 
     def rand_point(self, rng, l):
         return self.child.rand_point(rng, l.learner)
+
+    def first_value(self, rng, p, prob=0.15):
+        if self.child.specials and rng.random() < prob:
+            return {"y": rng.choice(self.child.specials), "tag": "first"}
+        return self.value(p)
+
+    def interior_point(self, rng, l):
+        return self.child.interior_point(rng, l.learner)
+
+    def outer_point(self, rng, l):
+        return self.child.outer_point(rng, l.learner)
 
     def data_items(self, l):
         return self.child.data_items(l.learner)
@@ -669,7 +741,7 @@ def gen_op(ad: Adapter, l, rng, handed, weights=None):
             p = ad.rand_point(rng, l) if ad.unsolicited else None
         if p is None:
             return ["ask", rng.choice([1, 2, 3]), True]
-        return ["tell", plain(p), plain(ad.value(p))]
+        return ["tell", plain(p), plain(ad.first_value(rng, p, w.get("special", 0.15)))]
     if r < tm:
         pts = []
         for _ in range(rng.randint(2, 4)):
@@ -677,11 +749,11 @@ def gen_op(ad: Adapter, l, rng, handed, weights=None):
                 (ad.rand_point(rng, l) if ad.unsolicited else None)
             if p is not None and all(ad.key(p) != ad.key(q) for q in pts):
                 pts.append(p)
-        vals = [ad.value(p) for p in pts]
+        vals = [ad.first_value(rng, p, w.get("special", 0.15)) for p in pts]
         if w.get("retell_in_batch", 0.25) > rng.random():
             known = known_points(ad, l)
             if known:
-                p = rng.choice(known)
+                p = pick_known(ad, l, rng, known)
                 if all(ad.key(ad.point(plain(p))) != ad.key(ad.point(plain(q))) for q in pts):
                     pts.append(p)
                     vals.append(told_value(ad, l, p))
@@ -697,10 +769,62 @@ def gen_op(ad: Adapter, l, rng, handed, weights=None):
         known = known_points(ad, l)
         if not known:
             return ["ask", 1, True]
-        p = rng.choice(known)
+        p = pick_known(ad, l, rng, known)
         same = rng.random() < 0.5 or not ad.retell_alt
         return ["tell", plain(p), plain(told_value(ad, l, p) if same else ad.alt_value(p))]
     return ["remove_unfinished"]
+
+
+def is_falsy(v):
+    """Exact zero of any flavour, empty or None (what `if value:` would skip)."""
+    if isinstance(v, dict):
+        v = v.get("y")
+    try:
+        if v is None or isinstance(v, str):
+            return not v
+        a = np.asarray(v, dtype=float)
+        return a.size == 0 or not np.any(a != 0)
+    except Exception:  # noqa: BLE001
+        return False
+
+
+def pick_known(ad, l, rng, known):
+    """A known point for a re-tell; half of the time one whose current value is an exact zero, when there is one."""
+    if rng.random() < 0.5:
+        z = [p for p in known if is_falsy(told_value(ad, l, p))]
+        if z:
+            return rng.choice(z)
+    return rng.choice(known)
+
+
+def hull_ops(ad, l, rng):
+    """Opening for LearnerND-based learners: the user first tells ndim+1.. generic interior points the learner never
+    suggested (a triangulation exists whose hull does not reach the corners), then asks and marks points OUTSIDE that
+    hull, tells some of them, asks again."""
+    first = ad.interior_point(rng, l)
+    if first is None:
+        return
+    nd = len(first[1]) if ad.spec["kind"] == "Bal" else len(first)
+    out = yield ["tell", plain(first), plain(ad.first_value(rng, first, 0.2))]
+    for _ in range(nd + rng.randint(1, 3) + (nd + 1 if ad.spec["kind"] == "Bal" else 0)):
+        p = ad.interior_point(rng, l)
+        if p is not None:
+            out = yield ["tell", plain(p), plain(ad.first_value(rng, p, 0.2))]
+    got = []
+    for step in ("ask", "mark", "ask", "tell", "mark", "ask"):
+        if step == "ask":
+            out = yield ["ask", rng.choice([2, 4, 4, 6]), True]
+            if is_exc(out):
+                return
+            got += list(out[1])
+        elif step == "mark":
+            p = ad.outer_point(rng, l)
+            if p is not None and ad.has_tell_pending:
+                out = yield ["tell_pending", plain(p)]
+        else:
+            for p in got[:2]:
+                out = yield ["tell", p, plain(ad.value(ad.point(p)))]
+            got = got[2:]
 
 
 def directed_ops(ad, l, rng):
